@@ -4,7 +4,7 @@ import os
 import re
 import kjobs
 from kani_engine import KaniJob, Harness, KDIR
-from common import VERIF, Undecided
+from common import VERIF, Undecided, guarded
 import vl
 
 BOUND = "<= 3 items, <= 3 contiguous chunks (possibly empty), both bracketings, optional identity elements; unwind 5"
@@ -38,10 +38,10 @@ def run(tier, seed):
                           '        use super::*;\n        include!("%s");\n    }\n}\n' % os.path.join(KDIR, "moments_n.rs"))
     job.add(Harness("vm4::verif_kani::par_n::mn_par_wiring", "C19.Moments4.par_collect_each_item_once",
                     "impl_from_par_iterator!(define_moments! type)", bounded=BOUND))
-    obs = job.run()
+    obs = guarded("C19.engine.job.run@L41", lambda: job.run())
     import glue_struct
-    obs += glue_struct.par_obligations("C19")
-    obs += vl.run_lemmas("C19", ["merge_tree", "concat", "tree_equals"])
+    obs += guarded("C19.engine.glue_struct.par_obligations@L43", lambda: glue_struct.par_obligations("C19"))
+    obs += guarded("C19.engine.vl.run_lemmas@L44", lambda: vl.run_lemmas("C19", ["merge_tree", "concat", "tree_equals"]))
     # The reduction "under A-RAYON the statement is C02 + C11 + C14 through the merge-tree lemma" is only as good as its
     # premises on the CURRENT tree: a merge that loses a non-empty left operand when the right one is empty (rayon folds
     # produce empty accumulators whenever a filter sits upstream) breaks parallel collection and nothing else in the wiring.
